@@ -37,6 +37,19 @@ type Dpk = DescriptorPublicKey;
 
 fn guard<T>(f: impl FnOnce() -> T) -> Option<T> { catch_unwind(AssertUnwindSafe(f)).ok() }
 
+/// every line goes through here: a guarded library call that panicked shows up as the token
+/// PANIC in the answer (C lines) or in the op (J lines carrying library verdicts); each such
+/// event is ALSO emitted as `J nopanic <the line> PANIC` so that it is a judged failure of its
+/// own - except `Descriptor::new_pk(<x-only>)`, which is the recorded observation.
+fn ln(out: &mut Out, op: &str, ans: &str) {
+    out.line(op, ans);
+    let panicked = ans == "PANIC" || op.split(' ').any(|t| t == "PANIC");
+    if panicked && !op.starts_with("J nopanic") && !op.contains("Descriptor::new_pk") {
+        let what: String = op.split(' ').filter(|t| *t != "PANIC").collect::<Vec<_>>().join(" ");
+        out.line(&format!("J nopanic {} PANIC", what), "ok");
+    }
+}
+
 /* ------------------------------------------------------------------ parameters */
 
 const N_SW: usize = 15;
@@ -113,14 +126,14 @@ fn named_consts() -> Vec<(String, ValidationParams)> {
 fn lattice_line(out: &mut Out, p: &ValidationParams, q: &ValidationParams) {
     let (sp, sq) = (show_params(p), show_params(q));
     let i = guard(|| show_params(&p.intersect(q))).unwrap_or("PANIC".into());
-    out.line(&format!("C vp-intersect {} {}", sp, sq), &i);
+    ln(out, &format!("C vp-intersect {} {}", sp, sq), &i);
     let e = guard(|| if p.entails(q) { "1" } else { "0" }).unwrap_or("PANIC");
-    out.line(&format!("C vp-entails {} {}", sp, sq), e);
+    ln(out, &format!("C vp-entails {} {}", sp, sq), e);
     let e = guard(|| if p.eq(q) { "1" } else { "0" }).unwrap_or("PANIC");
-    out.line(&format!("C vp-eq {} {}", sp, sq), e);
+    ln(out, &format!("C vp-eq {} {}", sp, sq), e);
     // judged against the component-wise order: intersect is the meet, entails is <=
     let ent = guard(|| if p.entails(q) { "1" } else { "0" }).unwrap_or("PANIC");
-    out.line(&format!("J vp-order {} {} {} {}", sp, sq, i, ent), "ok");
+    ln(out, &format!("J vp-order {} {} {} {}", sp, sq, i, ent), "ok");
 }
 
 fn lim_choices(rng: &mut Rng, i: usize) -> usize {
@@ -135,7 +148,7 @@ fn lim_choices(rng: &mut Rng, i: usize) -> usize {
 
 fn lattice(out: &mut Out, thorough: bool, rng: &mut Rng) {
     for (name, p) in named_consts() {
-        out.line(&format!("C vp-const {}", name), &show_params(&p));
+        ln(out, &format!("C vp-const {}", name), &show_params(&p));
     }
     // vectors near the constants
     let bases = [ValidationParams::MAX, ValidationParams::SANE, ValidationParams::CONSENSUS];
@@ -173,13 +186,13 @@ fn lattice(out: &mut Out, thorough: bool, rng: &mut Rng) {
         } else { partners[bits as usize % partners.len()] };
         let (sp, sq) = (show_params(&p), show_params(&q));
         if bits % 2 == 0 {
-            out.line(&format!("C vp-intersect {} {}", sp, sq), &show_params(&p.intersect(&q)));
-            out.line(&format!("C vp-entails {} {}", sp, sq), if p.entails(&q) { "1" } else { "0" });
+            ln(out, &format!("C vp-intersect {} {}", sp, sq), &show_params(&p.intersect(&q)));
+            ln(out, &format!("C vp-entails {} {}", sp, sq), if p.entails(&q) { "1" } else { "0" });
         } else {
-            out.line(&format!("C vp-intersect {} {}", sq, sp), &show_params(&q.intersect(&p)));
-            out.line(&format!("C vp-entails {} {}", sq, sp), if q.entails(&p) { "1" } else { "0" });
+            ln(out, &format!("C vp-intersect {} {}", sq, sp), &show_params(&q.intersect(&p)));
+            ln(out, &format!("C vp-entails {} {}", sq, sp), if q.entails(&p) { "1" } else { "0" });
         }
-        if bits % 64 == 0 { out.line(&format!("C vp-eq {} {}", sp, sp), if p.eq(&p) { "1" } else { "0" }); }
+        if bits % 64 == 0 { ln(out, &format!("C vp-eq {} {}", sp, sp), if p.eq(&p) { "1" } else { "0" }); }
     }
     let n_rand = if thorough { 100_000 } else { 6_000 };
     for _ in 0..n_rand {
@@ -208,6 +221,7 @@ fn key_string(id: u32) -> String {
         200..=299 => hex(&xonly_key(id).serialize()),
         300..=309 => format!("{}/{}/<0;1>/*", XPUB, id),
         310..=319 => format!("{}/{}/<0;1;2>/*", XPUB, id),
+        320..=329 => format!("{}/{}/*", XPUB, id),
         _ => hex(&full_key(id % 100).to_bytes()),
     }
 }
@@ -221,7 +235,7 @@ fn dpk_table() -> &'static (HashMap<u32, Dpk>, HashMap<String, u32>) {
     T.get_or_init(|| {
         let mut a = HashMap::new();
         let mut b = HashMap::new();
-        for id in (0..100).chain(100..200).chain(200..300).chain(300..304).chain(310..314) {
+        for id in (0..100).chain(100..200).chain(200..300).chain(300..304).chain(310..314).chain(320..323) {
             let s = key_string(id);
             let k = Dpk::from_str(&s).unwrap();
             b.insert(k.to_string(), id);
@@ -245,7 +259,7 @@ impl PkOf for XOnlyPublicKey {
 
 fn emit_defs(out: &mut Out) {
     let dummy33 = full_key(0).to_bytes();
-    for id in (0..100).chain(100..110).chain(200..300).chain(300..304).chain(310..314) {
+    for id in (0..100).chain(100..110).chain(200..300).chain(300..304).chain(310..314).chain(320..323) {
         let ser: Vec<u8> = match id {
             0..=199 => full_key(id).to_bytes(),
             200..=299 => xonly_key(id).serialize().to_vec(),
@@ -253,15 +267,15 @@ fn emit_defs(out: &mut Out) {
         };
         let sort: Vec<u8> = match id { 0..=199 => crate::ast::bip67_sort(&full_key(id)), _ => ser.clone() };
         let pkh = hash160::Hash::hash(&ser);
-        out.line(&format!("D key {} {} {} {}", id, hex(&ser), hex(&sort), hex(pkh.as_byte_array())), "ok");
+        ln(out, &format!("D key {} {} {} {}", id, hex(&ser), hex(&sort), hex(pkh.as_byte_array())), "ok");
     }
     for kind in HK::ALL {
         for h in 0..4 {
-            out.line(&format!("D hash {} {} {} {}", kind.name(), h, hex(&hash_value(kind, h)), hex(&ast::preimage(h))), "ok");
+            ln(out, &format!("D hash {} {} {} {}", kind.name(), h, hex(&hash_value(kind, h)), hex(&ast::preimage(h))), "ok");
         }
     }
-    for h in (0..4).chain(200..204) {
-        out.line(&format!("D rawpkh {} {}", h, hex(raw_pkh(h).as_byte_array())), "ok");
+    for h in (0..4).chain(100..104).chain(200..204) {
+        ln(out, &format!("D rawpkh {} {}", h, hex(raw_pkh(h).as_byte_array())), "ok");
     }
 }
 
@@ -280,6 +294,80 @@ fn to_ms<Pk: PkOf, Ctx: ScriptContext>(n: &Node) -> Result<Miniscript<Pk, Ctx>, 
         RawPkH(h) => Terminal::RawPkH(raw_pkh(*h)),
         After(n) => Terminal::After(AbsLockTime::from_consensus(*n).map_err(|e| e.to_string())?),
         Older(n) => Terminal::Older(RelLockTime::from_consensus(*n).map_err(|e| e.to_string())?),
+        Hash(HK::Sha256, h) => Terminal::Sha256(sha256::Hash::from_slice(&hash_value(HK::Sha256, *h)).unwrap()),
+        Hash(HK::Hash256, h) => Terminal::Hash256(hash256::Hash::from_slice(&hash_value(HK::Hash256, *h)).unwrap()),
+        Hash(HK::Ripemd160, h) => Terminal::Ripemd160(ripemd160::Hash::from_slice(&hash_value(HK::Ripemd160, *h)).unwrap()),
+        Hash(HK::Hash160, h) => Terminal::Hash160(hash160::Hash::from_slice(&hash_value(HK::Hash160, *h)).unwrap()),
+        Alt(x) => Terminal::Alt(sub(x)?),
+        Swap(x) => Terminal::Swap(sub(x)?),
+        Check(x) => Terminal::Check(sub(x)?),
+        DupIf(x) => Terminal::DupIf(sub(x)?),
+        Verify(x) => Terminal::Verify(sub(x)?),
+        NonZero(x) => Terminal::NonZero(sub(x)?),
+        ZeroNotEqual(x) => Terminal::ZeroNotEqual(sub(x)?),
+        AndV(a, b) => Terminal::AndV(sub(a)?, sub(b)?),
+        AndB(a, b) => Terminal::AndB(sub(a)?, sub(b)?),
+        AndOr(a, b, c) => Terminal::AndOr(sub(a)?, sub(b)?, sub(c)?),
+        OrB(a, b) => Terminal::OrB(sub(a)?, sub(b)?),
+        OrD(a, b) => Terminal::OrD(sub(a)?, sub(b)?),
+        OrC(a, b) => Terminal::OrC(sub(a)?, sub(b)?),
+        OrI(a, b) => Terminal::OrI(sub(a)?, sub(b)?),
+        Thresh(k, xs) => {
+            let mut v = Vec::with_capacity(xs.len());
+            for x in xs { v.push(sub(x)?); }
+            Terminal::Thresh(Threshold::new(*k, v).map_err(|e| e.to_string())?)
+        }
+        Multi(k, v) => Terminal::Multi(Threshold::new(*k, keys(v)?).map_err(|e| e.to_string())?),
+        SortedMulti(k, v) => Terminal::SortedMulti(Threshold::new(*k, keys(v)?).map_err(|e| e.to_string())?),
+        MultiA(k, v) => Terminal::MultiA(Threshold::new(*k, keys(v)?).map_err(|e| e.to_string())?),
+        SortedMultiA(k, v) => Terminal::SortedMultiA(Threshold::new(*k, keys(v)?).map_err(|e| e.to_string())?),
+    };
+    Miniscript::from_ast(t).map_err(|e| e.to_string())
+}
+
+/// the public-API routes that bypass `from_consensus` / `from_ast`: `older(0)` through
+/// `RelLockTime::ZERO`; with `ctor`, every node that has an unchecked public constructor
+/// (`Miniscript::pk`, `pkh`, `pk_k`, `pk_h`, `expr_raw_pkh`, `after`, `older`, hashes, `TRUE`,
+/// `FALSE`, `multi`, `sortedmulti`, `multi_a`, `sortedmulti_a`) is built with it
+fn to_ms_api<Pk: PkOf, Ctx: ScriptContext>(n: &Node, ctor: bool) -> Result<Miniscript<Pk, Ctx>, String> {
+    use Node::*;
+    let sub = |x: &Node| -> Result<Arc<Miniscript<Pk, Ctx>>, String> { Ok(Arc::new(to_ms_api::<Pk, Ctx>(x, ctor)?)) };
+    let keys = |v: &Vec<u32>| -> Result<Vec<Pk>, String> { v.iter().map(|i| Pk::of(*i).ok_or("nokey".to_string())).collect() };
+    let key = |k: &u32| Pk::of(*k).ok_or("nokey".to_string());
+    let rel = |n: u32| -> Result<RelLockTime, String> { if n == 0 { Ok(RelLockTime::ZERO) } else { RelLockTime::from_consensus(n).map_err(|e| e.to_string()) } };
+    if ctor {
+        match n {
+            True => return Ok(Miniscript::TRUE),
+            False => return Ok(Miniscript::FALSE),
+            PkK(k) => return Ok(Miniscript::pk_k(key(k)?)),
+            PkH(k) => return Ok(Miniscript::pk_h(key(k)?)),
+            RawPkH(h) => return Ok(Miniscript::expr_raw_pkh(raw_pkh(*h))),
+            After(n) => return Ok(Miniscript::after(AbsLockTime::from_consensus(*n).map_err(|e| e.to_string())?)),
+            Older(n) => return Ok(Miniscript::older(rel(*n)?)),
+            Hash(HK::Sha256, h) => return Ok(Miniscript::sha256(sha256::Hash::from_slice(&hash_value(HK::Sha256, *h)).unwrap())),
+            Hash(HK::Hash256, h) => return Ok(Miniscript::hash256(hash256::Hash::from_slice(&hash_value(HK::Hash256, *h)).unwrap())),
+            Hash(HK::Ripemd160, h) => return Ok(Miniscript::ripemd160(ripemd160::Hash::from_slice(&hash_value(HK::Ripemd160, *h)).unwrap())),
+            Hash(HK::Hash160, h) => return Ok(Miniscript::hash160(hash160::Hash::from_slice(&hash_value(HK::Hash160, *h)).unwrap())),
+            Multi(k, v) => return Ok(Miniscript::multi(Threshold::new(*k, keys(v)?).map_err(|e| e.to_string())?)),
+            SortedMulti(k, v) => return Ok(Miniscript::sortedmulti(Threshold::new(*k, keys(v)?).map_err(|e| e.to_string())?)),
+            MultiA(k, v) => return Ok(Miniscript::multi_a(Threshold::new(*k, keys(v)?).map_err(|e| e.to_string())?)),
+            SortedMultiA(k, v) => return Ok(Miniscript::sortedmulti_a(Threshold::new(*k, keys(v)?).map_err(|e| e.to_string())?)),
+            Check(x) => match &**x {
+                PkK(k) => return Ok(Miniscript::pk(key(k)?)),
+                PkH(k) => return Ok(Miniscript::pkh(key(k)?)),
+                _ => {}
+            },
+            _ => {}
+        }
+    }
+    let t: Terminal<Pk, Ctx> = match n {
+        True => Terminal::True,
+        False => Terminal::False,
+        PkK(k) => Terminal::PkK(key(k)?),
+        PkH(k) => Terminal::PkH(key(k)?),
+        RawPkH(h) => Terminal::RawPkH(raw_pkh(*h)),
+        After(n) => Terminal::After(AbsLockTime::from_consensus(*n).map_err(|e| e.to_string())?),
+        Older(n) => Terminal::Older(rel(*n)?),
         Hash(HK::Sha256, h) => Terminal::Sha256(sha256::Hash::from_slice(&hash_value(HK::Sha256, *h)).unwrap()),
         Hash(HK::Hash256, h) => Terminal::Hash256(hash256::Hash::from_slice(&hash_value(HK::Hash256, *h)).unwrap()),
         Hash(HK::Ripemd160, h) => Terminal::Ripemd160(ripemd160::Hash::from_slice(&hash_value(HK::Ripemd160, *h)).unwrap()),
@@ -452,6 +540,14 @@ fn wrong_kind(ctx: CtxK, id: u32) -> bool {
 fn suspects(ctx: CtxK, n: &Node, _base_b: bool) -> Vec<&'static str> {
     let mut v = vec![];
     if matches!(ctx, CtxK::Bare | CtxK::Legacy) && contains(n, &|x| matches!(x, Node::DupIf(_) | Node::OrI(..))) { v.push("cond"); }
+    // the classes below are only ever ACCEPTED through the public-API routes (unchecked leaf
+    // constructors, RelLockTime::ZERO); every parser / checked constructor refuses them
+    let mut ks = vec![]; n.keys(&mut ks);
+    if ks.iter().any(|k| wrong_kind(ctx, *k)) { v.push("keys"); }
+    let multi = contains(n, &|x| matches!(x, Node::Multi(..) | Node::SortedMulti(..)));
+    let multi_a = contains(n, &|x| matches!(x, Node::MultiA(..) | Node::SortedMultiA(..)));
+    if (ctx == CtxK::Tap && multi) || (ctx != CtxK::Tap && multi_a) { v.push("multi"); }
+    if contains(n, &|x| matches!(x, Node::Older(0))) { v.push("range"); }
     v
 }
 
@@ -467,12 +563,17 @@ impl Budget {
 /// judge lines for an input the library accepted through `entry`
 fn judge_accept(out: &mut Out, bud: &mut Budget, entry: &str, ctx: CtxK, n: &Node, wire: &str, base_b: bool) {
     let mut sus = suspects(ctx, n, base_b);
-    if entry == "fromast" { sus.retain(|r| *r != "top" && *r != "cond"); }
+    if entry.starts_with("fromast") { sus.retain(|r| *r != "top" && *r != "cond"); }
     let skip = if sus.is_empty() { "-".to_string() } else { sus.join(",") };
-    out.line(&format!("J ctxok {} {} {} {}", entry, ctx.name(), skip, wire), "ok");
+    ln(out, &format!("J ctxok {} {} {} {}", entry, ctx.name(), skip, wire), "ok");
     for r in sus {
         if bud.take(format!("{} {} {}", r, entry, ctx.name())) {
-            out.line(&format!("J ctxrule {} {} {} {}", r, entry, ctx.name(), wire), "ok");
+            // `range` can only be suspect because of older(0): its own rule name, so that the
+            // finding line names exactly that class
+            let rule = if r == "range" { "lock0" } else { r };
+            // F13 (sh accepts d:/or_i) is listed per entry point: keep the route out of that line
+            let e = if r == "cond" { entry.split(":api-").next().unwrap_or(entry) } else { entry };
+            ln(out, &format!("J ctxrule {} {} {} {}", rule, e, ctx.name(), wire), "ok");
         } else { out.count("ctxrule-suspect-over-budget"); }
     }
 }
@@ -507,33 +608,43 @@ where Ctx::Key: PkOf + miniscript::ToPublicKey {
     let cn = ctx.name();
     // 1. from_ast, bottom-up
     let built = guard(|| to_ms::<Dpk, Ctx>(n));
-    out.line(&format!("C accept fromast {} {}", cn, wire), okerr_ref(&built));
+    ln(out, &format!("C accept fromast {} {}", cn, wire), okerr_ref(&built));
     let ms = match built { Some(Ok(ms)) => Some(ms), _ => None };
     let base_b = ms.as_ref().map(|m| m.ty.corr.base == Base::B).unwrap_or(false);
     if let Some(ms) = &ms {
         out.count(&format!("constructed {} base={:?}", cn, ms.ty.corr.base));
         judge_accept(out, bud, "fromast", ctx, n, &wire, base_b);
+        // observation (outside the statement: the switch compares `Pk` values): the same public
+        // key in two encodings (compressed / uncompressed / x-only of one point) is no duplicate
+        {
+            let mut ks = vec![]; n.keys(&mut ks);
+            let same_point = ks.iter().enumerate().any(|(i, a)| *a < 300 && ks[..i].iter().any(|b| *b < 300 && b != a && b % 100 == a % 100));
+            if same_point && !guard(|| ms.has_repeated_keys()).unwrap_or(true) {
+                out.count("observation: one public key in two encodings is not reported as a duplicate key");
+                out.note(&format!("observation dup-encodings {}", cn), format!("{} in {}: has_repeated_keys() = false although two of its keys are the same point", wire.chars().take(120).collect::<String>(), cn));
+            }
+        }
         // 2. validate under parameter variants
         let variants = param_variants(ctx);
         for (i, p) in variants.iter().enumerate() {
             if !o.full_params && i % 16 != 0 && rng.below(8) != 0 { continue; }
             let r = verdict(guard(|| ms.validate(p)));
-            out.line(&format!("C validate {} {} {}", cn, show_params(p), wire), &r);
+            ln(out, &format!("C validate {} {} {}", cn, show_params(p), wire), &r);
         }
         if rng.below(4) == 0 {
             let p = variants[rng.below(variants.len())];
             let r = verdict(guard(|| ms.validate_non_top_level(&p)));
-            out.line(&format!("C vnt {} {} {}", cn, show_params(&p), wire), &r);
+            ln(out, &format!("C vnt {} {} {}", cn, show_params(&p), wire), &r);
         }
         // monotonicity on this script: accepted under P∩Q => accepted under P and under Q
-        for _ in 0..2 {
+        for _ in 0..4 {
             let p = variants[rng.below(variants.len())];
             let mut q = variants[rng.below(variants.len())];
             if rng.coin() { let li = rng.below(5); if let Some(f) = figures(ms)[li] { set_lim(&mut q, li, f + rng.below(2)); } }
             let r = p.intersect(&q);
             let (vr, vp, vq) = (verdict(guard(|| ms.validate(&r))), verdict(guard(|| ms.validate(&p))), verdict(guard(|| ms.validate(&q))));
-            out.line(&format!("J mono {} {} {} {} {} {}", cn, show_params(&r), show_params(&p), wire, vr, vp), "ok");
-            out.line(&format!("J mono {} {} {} {} {} {}", cn, show_params(&r), show_params(&q), wire, vr, vq), "ok");
+            ln(out, &format!("J mono {} {} {} {} {} {}", cn, show_params(&r), show_params(&p), wire, vr, vp), "ok");
+            ln(out, &format!("J mono {} {} {} {} {} {}", cn, show_params(&r), show_params(&q), wire, vr, vq), "ok");
         }
         // limits at the script's own figures -1 / 0 / +1 (and the judge for each)
         let figs = figures(ms);
@@ -545,10 +656,10 @@ where Ctx::Key: PkOf + miniscript::ToPublicKey {
                 if li == 4 && l > 402 { continue; }
                 let mut p = base; set_lim(&mut p, li, l);
                 let without = verdict(guard(|| ms.validate(&p)));
-                out.line(&format!("C validate {} {} {}", cn, show_params(&p), wire), &without);
+                ln(out, &format!("C validate {} {} {}", cn, show_params(&p), wire), &without);
                 if base.eq(&ValidationParams::MAX) {
                     let fs = match f { Some(f) => f.to_string(), None => "-".into() };
-                    out.line(&format!("J limit {} {} {} {} {} {} {}", LIM_NAMES[li], cn, show_lim(l), wire, fs, with, without), "ok");
+                    ln(out, &format!("J limit {} {} {} {} {} {} {}", LIM_NAMES[li], cn, show_lim(l), wire, fs, with, without), "ok");
                 }
             }
         }
@@ -562,7 +673,7 @@ where Ctx::Key: PkOf + miniscript::ToPublicKey {
                     if !get_sw(&base, i) { continue; }
                     let mut p = base; set_sw(&mut p, i, false);
                     let without = verdict(guard(|| ms.validate(&p)));
-                    out.line(&format!("J switch {} {} {} {} {} {}", SW_NAMES[i], cn, show_params(&base), wire, with, without), "ok");
+                    ln(out, &format!("J switch {} {} {} {} {} {}", SW_NAMES[i], cn, show_params(&base), wire, with, without), "ok");
                 }
             }
         }
@@ -573,13 +684,13 @@ where Ctx::Key: PkOf + miniscript::ToPublicKey {
     if o.strings {
         let s = ms_text(n);
         let sane = guard(|| Miniscript::<Dpk, Ctx>::from_str(&s));
-        out.line(&format!("C accept ms_sane/from_str {} {}", cn, wire), okerr_ref(&sane));
+        ln(out, &format!("C accept ms_sane/from_str {} {}", cn, wire), okerr_ref(&sane));
         if let Some(Ok(m)) = &sane { judge_accept(out, bud, "ms_sane/from_str", ctx, n, &wire, m.ty.corr.base == Base::B); }
         let insane = guard(|| Miniscript::<Dpk, Ctx>::from_str_insane(&s));
-        out.line(&format!("C accept ms_insane/from_str_insane {} {}", cn, wire), okerr_ref(&insane));
+        ln(out, &format!("C accept ms_insane/from_str_insane {} {}", cn, wire), okerr_ref(&insane));
         if let Some(Ok(m)) = &insane { judge_accept(out, bud, "ms_insane/from_str_insane", ctx, n, &wire, m.ty.corr.base == Base::B); }
         let cons = guard(|| Miniscript::<Dpk, Ctx>::from_str_with_validation_params(&s, &Ctx::CONSENSUS));
-        out.line(&format!("C accept ms_consensus/from_str_params {} {}", cn, wire), okerr_ref(&cons));
+        ln(out, &format!("C accept ms_consensus/from_str_params {} {}", cn, wire), okerr_ref(&cons));
         if let Some(Ok(m)) = &cons { judge_accept(out, bud, "ms_consensus/from_str_params", ctx, n, &wire, m.ty.corr.base == Base::B); }
         // descriptor strings
         let mut descs: Vec<(&str, String)> = vec![];
@@ -592,20 +703,20 @@ where Ctx::Key: PkOf + miniscript::ToPublicKey {
         for (entry, d) in descs {
             let r = guard(|| Descriptor::<Dpk>::from_str(&d));
             let v = okerr(r);
-            out.line(&format!("C accept {} {} {}", entry, cn, wire), v);
+            ln(out, &format!("C accept {} {} {}", entry, cn, wire), v);
             if v == "ok" { judge_accept(out, bud, entry, ctx, n, &wire, base_b); }
             // T4: what the descriptor parser accepts, the miniscript parser with Ctx::CONSENSUS accepts
             let class = if matches!(ctx, CtxK::Bare | CtxK::Legacy) && contains(n, &|x| matches!(x, Node::DupIf(_) | Node::OrI(..))) { "cond" }
                 else { "plain" };
             if class == "plain" || bud.take(format!("t4 {} {}", class, cn)) {
-                out.line(&format!("J t4 {} {} {} {} {}", class, entry, wire, v, okerr_ref(&cons)), "ok");
+                ln(out, &format!("J t4 {} {} {} {} {}", class, entry, wire, v, okerr_ref(&cons)), "ok");
             }
         }
         if ctx == CtxK::Tap {
             let d = format!("tr({},{})", key_string(299), s);
             let r = guard(|| Tr::<Dpk>::from_str(&d));
             let v = okerr(r);
-            out.line(&format!("C accept tr_str/Tr::from_str {} {}", cn, wire), v);
+            ln(out, &format!("C accept tr_str/Tr::from_str {} {}", cn, wire), v);
             if v == "ok" { judge_accept(out, bud, "tr_str/Tr::from_str", ctx, n, &wire, base_b); }
         }
     }
@@ -635,19 +746,19 @@ where Ctx::Key: PkOf {
     let cn = ctx.name();
     // the AST the decoder sees (pk_h becomes expr_raw_pkh, sortedmulti becomes multi, ...)
     let dec = match guard(|| Miniscript::<Ctx::Key, Ctx>::decode_with_validation_params(script, &ValidationParams::MAX)) {
-        Some(Ok(d)) => { out.line(&format!("C decodemax {} {} {}", cn, orig_wire, tag), "ok"); d }
-        Some(Err(_)) => { out.line(&format!("C decodemax {} {} {}", cn, orig_wire, tag), "ERR"); return; }
-        None => { out.line(&format!("C decodemax {} {} {}", cn, orig_wire, tag), "PANIC"); return; }
+        Some(Ok(d)) => { ln(out, &format!("C decodemax {} {} {}", cn, orig_wire, tag), "ok"); d }
+        Some(Err(_)) => { ln(out, &format!("C decodemax {} {} {}", cn, orig_wire, tag), "ERR"); return; }
+        None => { ln(out, &format!("C decodemax {} {} {}", cn, orig_wire, tag), "PANIC"); return; }
     };
     let dn = match from_ms(&dec) { Some(n) => n, None => { out.count("decode-unmapped"); return; } };
     let dw = dn.wire();
-    out.line(&format!("C decodevp {} {} {} {}", cn, show_params(&ValidationParams::MAX), dw, tag), "ok");
+    ln(out, &format!("C decodevp {} {} {} {}", cn, show_params(&ValidationParams::MAX), dw, tag), "ok");
     if tag == "own" {
         let r = guard(|| Miniscript::<Ctx::Key, Ctx>::decode(script));
-        out.line(&format!("C accept ms_sane/decode {} {}", cn, dw), okerr_ref(&r));
+        ln(out, &format!("C accept ms_sane/decode {} {}", cn, dw), okerr_ref(&r));
         if let Some(Ok(m)) = &r { judge_accept(out, bud, "ms_sane/decode", ctx, &dn, &dw, m.ty.corr.base == Base::B); }
         let r = guard(|| Miniscript::<Ctx::Key, Ctx>::decode_consensus(script));
-        out.line(&format!("C accept ms_consensus/decode_consensus {} {}", cn, dw), okerr_ref(&r));
+        ln(out, &format!("C accept ms_consensus/decode_consensus {} {}", cn, dw), okerr_ref(&r));
         if let Some(Ok(m)) = &r { judge_accept(out, bud, "ms_consensus/decode_consensus", ctx, &dn, &dw, m.ty.corr.base == Base::B); }
     }
     // decode_with_validation_params under the named parameter sets and single-switch flips:
@@ -659,7 +770,7 @@ where Ctx::Key: PkOf {
     for p in ps {
         let r = guard(|| Miniscript::<Ctx::Key, Ctx>::decode_with_validation_params(script, &p));
         let accepted = matches!(r, Some(Ok(_)));
-        out.line(&format!("C decodevp {} {} {} {}", cn, show_params(&p), dw, tag), &decode_verdict(r));
+        ln(out, &format!("C decodevp {} {} {} {}", cn, show_params(&p), dw, tag), &decode_verdict(r));
         // what a decoder accepts under the context's own parameters obeys the context
         if accepted && (p.eq(&ctx_const(ctx, false)) || p.eq(&ctx_const(ctx, true))) && tag != "own" {
             judge_accept(out, bud, "ms_consensus/decode_with_validation_params", ctx, &dn, &dw, dec.ty.corr.base == Base::B);
@@ -670,7 +781,7 @@ where Ctx::Key: PkOf {
 fn wrappers<Ctx: ScriptContext>(out: &mut Out, bud: &mut Budget, ctx: CtxK, n: &Node, wire: &str, _ms: &Miniscript<Dpk, Ctx>, base_b: bool) {
     let cn = ctx.name();
     let mut emit = |out: &mut Out, bud: &mut Budget, entry: &str, v: &'static str| {
-        out.line(&format!("C accept {} {} {}", entry, cn, wire), v);
+        ln(out, &format!("C accept {} {} {}", entry, cn, wire), v);
         if v == "ok" { judge_accept(out, bud, entry, ctx, n, wire, base_b); }
     };
     match ctx {
@@ -802,9 +913,133 @@ fn stress(ctx: CtxK) -> Vec<Node> {
         let keys: Vec<u32> = (0..300).map(|i| 200 + (i % 30) as u32).collect();
         l.push(chain(&keys));
     }
+    // cell 3: order inside TimelockInfo::combine_threshold (time-then-height, no-mix controls)
+    l.extend([and_v(v(After(500_000_001)), After(100)), and_v(v(Older(4_194_305)), Older(10)),
+        OrI(bx(Older(10)), bx(Older(4_194_305))),
+        Thresh(1, vec![Older(10), Alt(bx(Older(4_194_305)))]),
+        Thresh(2, vec![Older(10), Alt(bx(Older(4_194_305))), Swap(bx(pk(k0)))]),
+        Thresh(2, vec![Older(4_194_305), Alt(bx(Older(10))), Swap(bx(pk(k0)))]),
+        and_v(v(After(500_000_001)), Older(10)), and_v(v(Older(4_194_305)), After(100)),
+        and_v(v(pk(k0)), and_v(v(Older(4_194_305)), Older(10))),
+        AndB(bx(After(500_000_001)), bx(Alt(bx(After(100))))),
+        and_v(v(pk(k0)), Older(65_536)), and_v(v(pk(k0)), Older(1 << 21)), and_v(v(pk(k0)), Older((1 << 22) | 0)),
+    ]);
+    // cell 4: the size comparisons inside from_ast, exactly at and one byte over 520 / 3600 / 10000
+    // (35 bytes per `v:pk`, 3 per `v:older(10)`), bare multi with n = 3 / 4
+    if ctx != CtxK::Tap {
+        for (a, b) in [(14usize, 10usize), (13, 22), (102, 10), (101, 22), (284, 20), (283, 32)] {
+            let keys: Vec<u32> = (0..a).map(|i| (i % 30) as u32).collect();
+            let mut cur = chain(&keys);
+            for _ in 0..b { cur = and_v(v(Older(10)), cur); }
+            l.push(cur);
+        }
+        l.extend([Multi(1, vec![k0, k1, k2]), Multi(1, vec![k0, k1, k2, 3]), SortedMulti(2, vec![k0, k1, k2, 3]), Multi(4, vec![k0, k1, k2, 3])]);
+    }
+    // cell 5: what counts as a duplicate key (Pk values are compared): one point in two encodings,
+    // a raw hash of a key that also occurs, the same key twice inside multi
+    l.extend([and_v(v(pk(0)), pk(200)), and_v(v(pk(0)), pk(100)), and_v(v(pkh(0)), pk(100)),
+        and_v(v(Check(bx(RawPkH(0)))), pk(0)), and_v(v(Check(bx(RawPkH(k0)))), pk(k0)),
+        Multi(2, vec![k0, k0]), Multi(2, vec![k0, k1, k0]), MultiA(2, vec![k0, k0]), SortedMulti(1, vec![k1, k1]),
+        and_v(v(pk(k0)), Multi(1, vec![k1, k1]))]);
+    // cell 6: a plain xpub (num_der_paths = 1) next to multipath keys, sortedmulti with multipath keys
+    l.extend([and_v(v(pk(320)), pk(300)), and_v(v(pk(300)), and_v(v(pk(320)), pk(310))), and_v(v(pk(320)), pk(321)),
+        and_v(v(pk(300)), and_v(v(pk(320)), pk(301))), SortedMulti(1, vec![300, 310]), SortedMulti(2, vec![300, 320, 301]),
+        SortedMultiA(1, vec![300, 310]), Multi(2, vec![320, 300, 310])]);
+    // cell 6: witness items 99 / 100 / 101 (Segwitv0::SANE allows 100): 4 x multi(20 of 20) + pk's,
+    // all keys distinct so that the sane duplicate-key check does not fire first
+    if ctx != CtxK::Tap {
+        for n_pk in [14usize, 15, 16] {
+            let mut cur = pk(80 + n_pk as u32);
+            for i in 0..(n_pk - 1) { cur = and_v(v(pk(80 + i as u32)), cur); }
+            for g in 0..4u32 { cur = and_v(v(Multi(20, (g * 20..g * 20 + 20).collect())), cur); }
+            l.push(cur);
+        }
+    }
     // depth and op count
     for d in [199usize, 200, 201, 210, 400, 401, 402, 403] { l.push(n_wrap(d, pk(k0))); }
     l
+}
+
+/* ------------------------------------------------------------------ API routes (cells 1, 2) */
+
+fn api_cases(ctx: CtxK) -> Vec<Node> {
+    use Node::*;
+    let good: Vec<u32> = match ctx { CtxK::Tap => (200..210).collect(), _ => (0..10).collect() };
+    let (k0, k1, k2) = (good[0], good[1], good[2]);
+    let mut l = vec![];
+    // every key kind in every key position, alone and below a checked parent
+    for k in [0u32, 100, 200, 300] {
+        l.extend([pk(k), pkh(k), PkK(k), PkH(k), and_v(v(pk(k)), pk(k0 + 5)), and_v(v(pkh(k)), pk(k0 + 5)),
+            OrD(bx(pk(k0 + 5)), bx(pkh(k))),
+            Multi(1, vec![k, k0 + 5]), Multi(2, vec![k, k0 + 5, k0 + 6]), SortedMulti(1, vec![k0 + 5, k]),
+            MultiA(1, vec![k, k0 + 5]), SortedMultiA(2, vec![k0 + 5, k]),
+            and_v(v(pk(k0 + 5)), Multi(1, vec![k, k0 + 6])), and_v(v(pk(k0 + 5)), MultiA(1, vec![k, k0 + 6]))]);
+    }
+    // three x-only keys in a bare-template multi; wrong multisig flavour
+    l.extend([Multi(2, vec![200, 201, 202]), Multi(1, vec![k0, k1, k2]), MultiA(2, vec![k0, k1, k2]),
+        Multi(1, vec![k0, k1, k2, k0 + 3])]);
+    // locks that exist only through the public constants / unchecked constructors, and legal odd ones
+    for n in [0u32, 1, 65_535, 65_536, 1 << 21, 1 << 22, (1 << 22) | 1, 0x7fff_ffff] {
+        l.extend([Older(n), and_v(v(pk(k0)), Older(n)), OrD(bx(pk(k0)), bx(and_v(v(pk(k1)), Older(n)))),
+            Thresh(2, vec![pk(k0), Swap(bx(pk(k1))), Swap(bx(OrI(bx(False), bx(ZeroNotEqual(bx(Older(n)))))))])]);
+    }
+    l.extend([True, False, and_v(v(pk(k0)), After(1)), and_v(v(pk(k0)), Hash(HK::Sha256, 0)), Check(bx(RawPkH(0))),
+        OrI(bx(pk(k0)), bx(pk(k1))), and_v(v(pk(k0)), DupIf(bx(v(Older(10)))))]);
+    l
+}
+
+/// one AST through the API routes: `from_ast` (top), `validate(&Ctx::CONSENSUS)` and the wrappers
+fn run_api(out: &mut Out, bud: &mut Budget, ctx: CtxK, n: &Node) {
+    for ctor in [false, true] {
+        let route = if ctor { "ctor" } else { "checked" };
+        match ctx {
+            CtxK::Bare => run_api_ctx::<BareCtx>(out, bud, ctx, n, ctor, route),
+            CtxK::Legacy => run_api_ctx::<Legacy>(out, bud, ctx, n, ctor, route),
+            CtxK::Segwitv0 => run_api_ctx::<Segwitv0>(out, bud, ctx, n, ctor, route),
+            CtxK::Tap => run_api_ctx::<Tap>(out, bud, ctx, n, ctor, route),
+        }
+    }
+}
+
+fn run_api_ctx<Ctx: ScriptContext>(out: &mut Out, bud: &mut Budget, ctx: CtxK, n: &Node, ctor: bool, route: &str) {
+    let wire = n.wire();
+    let cn = ctx.name();
+    let built = guard(|| to_ms_api::<Dpk, Ctx>(n, ctor));
+    let mut emit = |out: &mut Out, bud: &mut Budget, entry: &str, what: &str, v: &'static str, base_b: bool| {
+        ln(out, &format!("C acceptapi {} {} {} {}", route, entry, cn, wire), v);
+        if v == "ok" {
+            let name = if entry == "fromast" && route == "ctor" { "fromast/ctor:Miniscript-leaf-constructors".to_string() }
+                else if entry == "fromast" { "fromast/from_ast:api-checked".to_string() }
+                else { format!("{}/{}:api-{}", entry, what, route) };
+            judge_accept(out, bud, &name, ctx, n, &wire, base_b);
+        }
+    };
+    let ms = match &built { Some(Ok(ms)) => ms, other => { emit(out, bud, "fromast", "build", okerr_ref(other), false); return; } };
+    let base_b = ms.ty.corr.base == Base::B;
+    emit(out, bud, "fromast", "build", "ok", base_b);
+    emit(out, bud, "ms_consensus", "validate(Ctx::CONSENSUS)", okerr(guard(|| ms.validate(&Ctx::CONSENSUS))), base_b);
+    emit(out, bud, "ms_sane", "validate(Ctx::SANE)", okerr(guard(|| ms.validate(&Ctx::SANE))), base_b);
+    match ctx {
+        CtxK::Segwitv0 => if let Some(Ok(m)) = guard(|| to_ms_api::<Dpk, Segwitv0>(n, ctor)) {
+            emit(out, bud, "wrapper", "Wsh::new", okerr(guard(|| Wsh::new(m.clone()))), base_b);
+            emit(out, bud, "wrapper", "Sh::new_wsh", okerr(guard(|| Sh::new_wsh(m.clone()))), base_b);
+            emit(out, bud, "wrapper", "Descriptor::new_wsh", okerr(guard(|| Descriptor::new_wsh(m.clone()))), base_b);
+            emit(out, bud, "wrapper", "Descriptor::new_sh_wsh", okerr(guard(|| Descriptor::new_sh_wsh(m.clone()))), base_b);
+        },
+        CtxK::Legacy => if let Some(Ok(m)) = guard(|| to_ms_api::<Dpk, Legacy>(n, ctor)) {
+            emit(out, bud, "wrapper", "Sh::new", okerr(guard(|| Sh::new(m.clone()))), base_b);
+            emit(out, bud, "wrapper", "Descriptor::new_sh", okerr(guard(|| Descriptor::new_sh(m.clone()))), base_b);
+        },
+        CtxK::Bare => if let Some(Ok(m)) = guard(|| to_ms_api::<Dpk, BareCtx>(n, ctor)) {
+            emit(out, bud, "wrapper", "Bare::new", okerr(guard(|| Bare::new(m.clone()))), base_b);
+            emit(out, bud, "wrapper", "Descriptor::new_bare", okerr(guard(|| Descriptor::new_bare(m.clone()))), base_b);
+        },
+        CtxK::Tap => if let Some(Ok(m)) = guard(|| to_ms_api::<Dpk, Tap>(n, ctor)) {
+            let ik = Dpk::of(299).unwrap();
+            emit(out, bud, "tr_new", "Tr::new", okerr(guard(|| Tr::new(ik.clone(), Some(TapTree::leaf(m.clone()))))), base_b);
+            emit(out, bud, "tr_new", "Descriptor::new_tr", okerr(guard(|| Descriptor::new_tr(ik.clone(), Some(TapTree::leaf(m.clone()))))), base_b);
+        },
+    }
 }
 
 /* ------------------------------------------------------------------ new_sortedmulti */
@@ -829,7 +1064,7 @@ fn sortedmulti(out: &mut Out, bud: &mut Budget) {
             ("sortedmulti/Descriptor::new_sh_sortedmulti", CtxK::Legacy, mk(&|t| Descriptor::new_sh_sortedmulti(t).is_ok())),
             ("sortedmulti/Descriptor::new_sh_wsh_sortedmulti", CtxK::Segwitv0, mk(&|t| Descriptor::new_sh_wsh_sortedmulti(t).is_ok())),
         ] {
-            out.line(&format!("C sortedmulti-new {} {} {} {}", ctx.name(), k, idstr, entry), v);
+            ln(out, &format!("C sortedmulti-new {} {} {} {}", ctx.name(), k, idstr, entry), v);
             if v == "ok" { judge_accept(out, bud, entry, ctx, &node, &wire, true); } else { out.count("sortedmulti-rejected"); }
         }
     }
@@ -844,8 +1079,8 @@ fn key_only(out: &mut Out) {
         let k = Dpk::of(id).unwrap();
         let ks = key_string(id);
         let mut emit = |out: &mut Out, kind: &str, entry: &str, v: &'static str| {
-            out.line(&format!("C keyonly {} {} {}", kind, id, entry), v);
-            out.line(&format!("J keyok {} {} {} {}", entry, kind, id, v), "ok");
+            ln(out, &format!("C keyonly {} {} {}", kind, id, entry), v);
+            ln(out, &format!("J keyok {} {} {} {}", entry, kind, id, v), "ok");
             if v == "PANIC" {
                 // outside C12's statement (a panic is not an acceptance): observation only
                 out.count("observation: constructor panics instead of returning an error");
@@ -937,8 +1172,8 @@ fn tr_trees(out: &mut Out, thorough: bool, rng: &mut Rng) {
     for t in &trees {
         let w = t.wire();
         let mut emit = |out: &mut Out, entry: &str, v: &'static str| {
-            out.line(&format!("C traccept {} {}", entry, w), v);
-            if v == "ok" { out.line(&format!("J trok {} {}", entry, w), "ok"); }
+            ln(out, &format!("C traccept {} {}", entry, w), v);
+            if v == "ok" { ln(out, &format!("J trok {} {}", entry, w), "ok"); }
         };
         match guard(|| t.build()) {
             None => emit(out, "tr_new/TapTree::combine+Tr::new", "PANIC"),
@@ -971,6 +1206,19 @@ pub fn run(out: &mut Out, thorough: bool, seed: u64) {
             let big = n.size() > 60;
             run_ast(out, &mut bud, ctx, n, &Opts { full_params: !big, strings: true, switches: true }, &mut rng);
         }
+        // the shared dimension corpus (all hash kinds, both lock units, lock pairs in both orders,
+        // thresholds with lock children, surplus multisig, raw hashes, uncompressed keys), every tier
+        let corpus = ast::dimension_corpus(ctx);
+        out.note(&format!("corpus_{}", ctx.name()), corpus.len().to_string());
+        for n in &corpus {
+            run_ast(out, &mut bud, ctx, n, &Opts { full_params: true, strings: true, switches: true }, &mut rng);
+            run_api(out, &mut bud, ctx, n);
+        }
+        // public-API routes that bypass from_consensus / from_ast
+        let api = api_cases(ctx);
+        out.note(&format!("api_cases_{}", ctx.name()), api.len().to_string());
+        for n in &api { run_api(out, &mut bud, ctx, n); }
+        for n in st.iter().filter(|n| n.size() <= 60).step_by(3) { run_api(out, &mut bud, ctx, n); }
         // typed enumeration, all base types
         let atoms = ast::default_atoms(ctx, !thorough);
         let (depth, quota) = if thorough { (4, 30) } else { (3, 8) };
@@ -981,6 +1229,7 @@ pub fn run(out: &mut Out, thorough: bool, seed: u64) {
             t.node.count_frags(out);
             let full = thorough || i % 5 == 0;
             run_ast(out, &mut bud, ctx, &t.node, &Opts { full_params: full, strings: true, switches: true }, &mut rng);
+            if i % 7 == 0 { run_api(out, &mut bud, ctx, &t.node); }
         }
     }
     sortedmulti(out, &mut bud);
